@@ -645,6 +645,18 @@ def pandas_logic_rule(program, res, rule="C05-S3"):
     impl = {k.value: v for k, v in zip(dicts[0].keys, dicts[0].values) if isinstance(k, ast.Constant)}
     mod = program.module("pandas_base")
     pb = program.cls("pandas_base", "PandasModelBase")
+    # not(x): the function spelling of negation (`p == not (q)` parses to it): true where x is false
+    e_not = impl.get("not")
+    if e_not is not None:
+        tgt = mod.functions[e_not.id].node if isinstance(e_not, ast.Name) and e_not.id in mod.functions else e_not
+        cmps = [c for c in ast.walk(tgt) if isinstance(c, ast.Compare) and isinstance(c.comparators[0], ast.Constant) and c.comparators[0].value is False]
+        if any(isinstance(c.ops[0], ast.NotEq) for c in cmps):
+            res.fail(rule, "pandas_base:PandasModelBase._populate_impl_map", "pandas-logic:not:identity",
+                     "Pandas computes not(x) as `x != False`, which is x itself: 'p == not (q)' evaluates p == q on Pandas while SQLite negates", "data_algebra/pandas_base.py", getattr(e_not, "lineno", 0))
+        elif cmps or any(isinstance(c, ast.Attribute) and c.attr == "logical_not" for c in ast.walk(tgt)):
+            res.ok(rule, "Pandas not(x) is true where x is false")
+        else:
+            res.abstain(rule, "Pandas `not`", "implementation shape not recognised")
     for op in ("and", "or"):
         e = impl.get(op)
         if e is None:
@@ -661,7 +673,14 @@ def pandas_logic_rule(program, res, rule="C05-S3"):
         body = target if target is not None else e
         looks_at_missing = any(isinstance(c, ast.Call) and isinstance(c.func, ast.Attribute) and c.func.attr in ("isnull", "isna") for c in ast.walk(body))
         bare_numpy = any(isinstance(c, ast.Attribute) and unparse(c) in ("numpy.logical_and", "numpy.logical_or") for c in ast.walk(body))
-        if looks_at_missing:
+        object_result = [c for c in ast.walk(body) if isinstance(c, ast.Call) and isinstance(c.func, ast.Attribute) and c.func.attr == "astype"
+                         and c.args and unparse(c.args[0]) in ("object", "'object'", '"object"')]
+        if looks_at_missing and object_result:
+            res.fail(rule, "pandas_base:PandasModelBase._populate_impl_map", f"pandas-logic:{op}:object-result",
+                     f"Pandas `{op}` answers in an object array holding None (`{unparse(object_result[0])[:40]}`): select_rows over it raises 'Cannot mask with non-boolean array containing NA', "
+                     f"cumsum / arithmetic on the column fail, and a million plain booleans take a second — pandas' nullable boolean type has the three valued & and | built in",
+                     "data_algebra/pandas_base.py", getattr(e, "lineno", 0))
+        elif looks_at_missing:
             res.ok(rule, f"Pandas `{op}` decides from which operands are missing (three valued logic)")
         else:
             res.fail(rule, "pandas_base:PandasModelBase._populate_impl_map", f"pandas-logic:{op}:truthiness",
@@ -690,6 +709,14 @@ def masked_condition_rule(program, res, rule="C05-S8"):
                     hnode = getattr(h, "node", None)
                     if hnode is not None and any(isinstance(x, ast.Call) and isinstance(x.func, ast.Attribute) and x.func.attr in ("fillna", "to_numpy") for x in ast.walk(hnode)):
                         normalised = True
+                    bad_fill = [x for x in ast.walk(hnode)] if hnode is not None else []
+                    bad_fill = [x for x in bad_fill if isinstance(x, ast.Call) and isinstance(x.func, ast.Attribute) and x.func.attr == "fillna" and x.args
+                                and isinstance(x.args[0], ast.Constant) and isinstance(x.args[0].value, bool)]
+                    if bad_fill:
+                        res.fail_at(rule, f, f"masked-condition-filled-with-bool:{f.node.name}",
+                                    f"`{unparse(bad_fill[0])[:50]}` fills the condition's missing entries with a bool before it is read: an Int64 / Float64 flag column refuses that "
+                                    f"(TypeError: Invalid value 'False' for dtype 'Int64') — flag.if_else(x, y) worked before the nullable conditions were handled", bad_fill[0])
+                        continue
                     if isinstance(a0.func, ast.Attribute) and a0.func.attr in ("fillna", "to_numpy"):
                         normalised = True
                 if normalised:
